@@ -90,7 +90,8 @@ def build_frames(labelset, src_rgb, slots=None, multi_video=False):
         fr = {"image": img, "instances": users}
         if multi_video:  # every labelled frame is frame 0 of its own video (frame indices collide across videos)
             fr["video"] = f
-            if multi_video == "sizes" and f % 2 == 1:  # ... and the videos have different frame sizes (all points stay inside)
+            if (multi_video == "sizes" and f % 2 == 1) or (multi_video == "sizes-rev" and f % 2 == 0):
+                # ... and the videos have different frame sizes (all points stay inside); "sizes-rev": the small video comes first
                 fr["image"] = np.ascontiguousarray(img[:SMALL_HW[0], :SMALL_HW[1]])
         frames.append(fr)
         predicted.append(preds)
